@@ -10,6 +10,7 @@ import (
 	"math"
 	"math/big"
 	"reflect"
+	"sort"
 	"strings"
 	"time"
 )
@@ -889,26 +890,29 @@ func (r *Ref) evalBuiltin(e *Expr, st State) (Val, error) {
 		}
 		return fs, nil
 	}
-	switch e.Fn {
-	case "Abs", "Floor", "Ceil", "Round", "Trunc", "Sqrt":
+	if f1, ok := mathUnary[e.Fn]; ok {
 		fs, err := fl(1)
 		if err != nil {
 			return Val{}, err
 		}
-		switch e.Fn {
-		case "Abs":
-			return vF(math.Abs(fs[0])), nil
-		case "Floor":
-			return vF(math.Floor(fs[0])), nil
-		case "Ceil":
-			return vF(math.Ceil(fs[0])), nil
-		case "Round":
-			return vF(math.Round(fs[0])), nil
-		case "Trunc":
-			return vF(math.Trunc(fs[0])), nil
-		default:
-			return vF(math.Sqrt(fs[0])), nil
+		v := f1(fs[0])
+		if math.IsNaN(v) || math.IsInf(v, 0) {
+			return Val{}, domErr("%s(%v) is not a finite number", e.Fn, fs[0])
 		}
+		return vF(v), nil
+	}
+	if f2, ok := mathBinary[e.Fn]; ok {
+		fs, err := fl(2)
+		if err != nil {
+			return Val{}, err
+		}
+		v := f2(fs[0], fs[1])
+		if math.IsNaN(v) || math.IsInf(v, 0) {
+			return Val{}, domErr("%s(%v, %v) is not a finite number", e.Fn, fs[0], fs[1])
+		}
+		return vF(v), nil
+	}
+	switch e.Fn {
 	case "Max", "Min":
 		fs, err := fl(-1)
 		if err != nil {
@@ -926,12 +930,6 @@ func (r *Ref) evalBuiltin(e *Expr, st State) (Val, error) {
 			}
 		}
 		return vF(m), nil
-	case "Pow":
-		fs, err := fl(2)
-		if err != nil {
-			return Val{}, err
-		}
-		return vF(math.Pow(fs[0], fs[1])), nil
 	case "MakeTime":
 		if len(args) != 6 {
 			return Val{}, evalErr("MakeTime requires 6 arguments")
@@ -1176,4 +1174,38 @@ func (r *Ref) EvalCond(e *Expr, st State) (bool, error) {
 		return false, evalErr("condition is not boolean")
 	}
 	return v.B, nil
+}
+
+// The documented math built-ins are plain wrappers of Go's math package (Function_en.md).
+var mathUnary = map[string]func(float64) float64{
+	"Abs": math.Abs, "Acos": math.Acos, "Acosh": math.Acosh, "Asin": math.Asin, "Asinh": math.Asinh, "Atan": math.Atan, "Atanh": math.Atanh,
+	"Cbrt": math.Cbrt, "Ceil": math.Ceil, "Cos": math.Cos, "Cosh": math.Cosh, "Erf": math.Erf, "Erfc": math.Erfc, "Erfcinv": math.Erfcinv,
+	"Erfinv": math.Erfinv, "Exp": math.Exp, "Exp2": math.Exp2, "Expm1": math.Expm1, "Floor": math.Floor, "Gamma": math.Gamma, "J0": math.J0,
+	"J1": math.J1, "MathLog": math.Log, "Log10": math.Log10, "Log1p": math.Log1p, "Log2": math.Log2, "Logb": math.Logb, "Round": math.Round,
+	"RoundToEven": math.RoundToEven, "Sin": math.Sin, "Sinh": math.Sinh, "Sqrt": math.Sqrt, "Tan": math.Tan, "Tanh": math.Tanh, "Trunc": math.Trunc,
+}
+
+var mathBinary = map[string]func(float64, float64) float64{
+	"Atan2": math.Atan2, "Copysign": math.Copysign, "Dim": math.Dim, "Hypot": math.Hypot, "Mod": math.Mod, "Pow": math.Pow, "Remainder": math.Remainder,
+}
+
+// sorted names (map order must not decide what a PRNG draw means)
+var mathUnaryNames, mathBinaryNames = sortedKeys1(mathUnary), sortedKeys2(mathBinary)
+
+func sortedKeys1(m map[string]func(float64) float64) []string {
+	var l []string
+	for k := range m {
+		l = append(l, k)
+	}
+	sort.Strings(l)
+	return l
+}
+
+func sortedKeys2(m map[string]func(float64, float64) float64) []string {
+	var l []string
+	for k := range m {
+		l = append(l, k)
+	}
+	sort.Strings(l)
+	return l
 }
